@@ -12,9 +12,10 @@ the correctly rounded double of k / 10^precision for each acceptable integer k, 
   x = value * 10^precision            (exact rational)
   k = floor(x) | ceil(x) | x rounded half away from zero
 and, for precision != 0 only, BOTH neighbours are acceptable when x lies within a relative
-2^-48 of the decision point (a tie for `n`, an integer for `c`/`f`): that is the documented
-tolerance for the artefacts of computing value * 10^precision in binary floating point
-(1.45 is really 1.4499999999999999556, 1.45 * 10 rounds to exactly 14.5, ...).
+2^-48 (or an absolute 2^-1074, the spacing of subnormal doubles) of the decision point (a tie
+for `n`, an integer for `c`/`f`): that is the documented tolerance for the artefacts of
+computing value * 10^precision in binary floating point (1.45 is really
+1.4499999999999999556, 1.45 * 10 rounds to exactly 14.5, 5e-324 * 0.1 is not representable ...).
 For precision == 0 there is no such tolerance: the answer is exact.
 """
 import math
@@ -49,7 +50,8 @@ def handle(line):
     x = v * scale
     fl = math.floor(x)
     ce = math.ceil(x)
-    tol = Fraction(0) if p == 0 else abs(x) / (1 << 48)
+    # binary granularity of the product: relative 2^-48, and never finer than the smallest subnormal
+    tol = Fraction(0) if p == 0 else max(abs(x) / (1 << 48), Fraction(1, 1 << 1074))
     ks = set()
     if fl == ce:
         ks.add(fl)
